@@ -78,7 +78,7 @@ func verifSymArith(a *Arithmetic) {
 		}
 		sum += uint64(a.Nums[i])
 	}
-	verifAssume(sum < 1<<32)
+	verifAssume(sum < 1<<32-1) // the parser rejects sums >= math.MaxUint32, so larger ones are not parse-reachable
 	a.Res = uint32(sum)
 }
 
